@@ -150,4 +150,46 @@ theorem insertionSort_eq_self_of_sorted [LinearOrder α] {l : List α}
   rw [← List.mergeSort_eq_insertionSort]
   exact sort_eq_self_of_sorted h
 
+/-- [sorted permutation of segments] sorting `xs ++ ys` and `ys ++ xs` gives the same list
+(rule `same_up_to_segment_order` of pyvc/listops.py). -/
+theorem sort_perm_append [LinearOrder α] (xs ys : List α) :
+    (xs ++ ys).insertionSort (· ≤ ·) = (ys ++ xs).insertionSort (· ≤ ·) := by
+  apply List.Perm.eq_of_pairwise (le := (· ≤ ·))
+  · intro a b _ _ hab hba; exact le_antisymm hab hba
+  · exact (List.pairwise_insertionSort _ _)
+  · exact (List.pairwise_insertionSort _ _)
+  · exact ((List.perm_insertionSort _ _).trans
+      (List.perm_append_comm.trans (List.perm_insertionSort _ _).symm))
+
+/-- [sorted permutation] a sorted list that is a permutation of `xs` is the sorted `xs`
+(rule `same_sorted_perm` of pyvc/listops.py). -/
+theorem sorted_perm_eq [LinearOrder α] {xs ys : List α}
+    (hp : xs.Perm ys) (hs : ys.Pairwise (· ≤ ·)) : xs.insertionSort (· ≤ ·) = ys := by
+  apply List.Perm.eq_of_pairwise (le := (· ≤ ·))
+  · intro a b _ _ hab hba; exact le_antisymm hab hba
+  · exact (List.pairwise_insertionSort _ _)
+  · exact hs
+  · exact (List.perm_insertionSort _ _).trans hp
+
+/-- [index-aligned flatMap congruence] two flatMaps over the same index range agree when their bodies agree at
+every index (rule `same_fm` for index-aligned sources). -/
+theorem flatMap_congr_idx {f g : ℕ → List β} {n : ℕ} (h : ∀ i, i < n → f i = g i) :
+    (List.range n).flatMap f = (List.range n).flatMap g := by
+  apply List.flatMap_congr
+  intro i hi
+  exact h i (List.mem_range.mp hi)
+
+/-- [enumerate is index-aligned with range] `for i, x in enumerate(xs)` visits `(i, xs[i])` for `i` in
+`range(len(xs))`. -/
+theorem zipIdx_flatMap_eq_range [Inhabited α] (xs : List α) (f : ℕ → α → List β) :
+    xs.zipIdx.flatMap (fun p => f p.2 p.1) =
+      (List.range xs.length).flatMap (fun i => f i xs[i]!) := by
+  have h : xs.zipIdx = (List.range xs.length).map (fun i => (xs[i]!, i)) := by
+    apply List.ext_getElem
+    · simp
+    · intro i h1 h2
+      simp at h1
+      simp [h1]
+  rw [h, List.flatMap_map]
+
 end Lifting
